@@ -1,5 +1,6 @@
 import ReplicatProofs.Lemmas.Store
 import ReplicatProofs.Lemmas.Paging
+import ReplicatProofs.Lemmas.LocalFS
 /-!
 # C13 — all backends behave as the same simple object store
 
@@ -7,7 +8,7 @@ Specification: `Store.Spec = Name → Option Bytes` with `Store.SpecStep` (what 
 Property theorems only; helper lemmas live in `Lemmas/Store.lean`, `Lemmas/Paging.lean`, `Lemmas/LocalFS.lean`.
 -/
 namespace Replicat.C13
-open Replicat Replicat.Store Replicat.Paging
+open Replicat Replicat.Store Replicat.Paging Replicat.LocalFS
 
 /-- side conditions every adapter shares: the streamed variants are called with a chunk size ≥ 1 -/
 def ChunkOk : Op → Prop
@@ -201,5 +202,66 @@ theorem b2_url_metachar_witness :
     (B2.step 1000 (B2.step 1000 [] (.upload "a?b".toList [1])).1 (.exists_ "a?b".toList)).2 = .bool false ∧
     ((B2.step 1000 [] (.upload "a?b".toList [1])).1.abs "a?b".toList).isSome = true := by
   refine ⟨by decide, by decide, by decide⟩
+
+/-! ## the local adapter -/
+
+/-- **The local adapter refines the map** (every operation except listing, which has its own theorems below), for every
+spelling `root` of the repository location, over a name universe `U` of canonical names none of which is a directory prefix
+of another: the temp-file-and-rename upload replaces the object, `unlink(missing_ok=True)` makes delete idempotent,
+`os.path.exists` / `read_bytes` agree with the map; the invariant `Inv U` (used by the listing theorems) is preserved. -/
+theorem local_refines (U : Path → Prop) (hU : Universe U) (root : List Char) (fs : FS) (hinv : Inv U fs) (op : Op)
+    (hn : NameOk (fun n => validName n = true ∧ U (splitSlash n)) op) (hc : ChunkOk op) (hop : op.name?.isSome = true) :
+    Inv U (LocalFS.step root fs op).1 ∧
+    SpecStep fs.abs op (LocalFS.step root fs op).1.abs (LocalFS.step root fs op).2 := by
+  have hmiss : Gen.localUnlinkMissingOk = true := by decide
+  cases op with
+  | list pfx => simp [Op.name?] at hop
+  | upload n d =>
+    obtain ⟨hv, hu⟩ : validName n = true ∧ U (splitSlash n) := hn
+    have hne : splitSlash n ≠ [] := splitSlash_ne_nil n
+    simp only [LocalFS.step, relPath_valid hv, hne, not_blocked hU hinv hu, not_isDir hU hinv hu, false_or, Bool.false_eq_true,
+      if_false]
+    exact ⟨inv_upload hinv hu d, abs_upload fs hv d, rfl⟩
+  | uploadStream n d c =>
+    obtain ⟨hv, hu⟩ : validName n = true ∧ U (splitSlash n) := hn
+    have hc' : 1 ≤ c := hc
+    have hne : splitSlash n ≠ [] := splitSlash_ne_nil n
+    simp only [LocalFS.step, relPath_valid hv, hne, not_blocked hU hinv hu, not_isDir hU hinv hu, false_or, Bool.false_eq_true,
+      if_false, streamed_eq c hc' d]
+    exact ⟨inv_upload hinv hu d, abs_upload fs hv d, rfl⟩
+  | delete n =>
+    obtain ⟨hv, hu⟩ : validName n = true ∧ U (splitSlash n) := hn
+    simp only [LocalFS.step, relPath_valid hv, kind_of_U hU hinv hu]
+    by_cases hf : fs.isFile (splitSlash n) = true
+    · simp only [hf, if_true]
+      exact ⟨inv_erase hinv _, abs_erase fs hv, rfl⟩
+    · have hnone : fs.abs n = none := by
+        unfold FS.abs; simp only [hv, if_true]
+        simpa [FS.isFile] using hf
+      simp only [hf, Bool.false_eq_true, if_false, not_blocked hU hinv hu, hmiss, if_true]
+      exact ⟨hinv, (abs_del_of_none fs n hnone).symm, rfl⟩
+  | exists_ n =>
+    obtain ⟨hv, hu⟩ : validName n = true ∧ U (splitSlash n) := hn
+    simp only [LocalFS.step, relPath_valid hv, kind_of_U hU hinv hu]
+    refine ⟨hinv, rfl, ?_⟩
+    unfold FS.abs; simp only [hv, if_true]
+    by_cases hf : fs.isFile (splitSlash n) = true
+    · have : (fs.get (splitSlash n)).isSome = true := hf
+      simp [hf, this]
+    · have : (fs.get (splitSlash n)).isSome = false := by simpa [FS.isFile] using hf
+      simp [hf, this]
+  | download n =>
+    obtain ⟨hv, hu⟩ : validName n = true ∧ U (splitSlash n) := hn
+    rw [step_download hU hinv root hv hu]
+    exact ⟨hinv, rfl, rfl⟩
+  | downloadStream n c sink =>
+    obtain ⟨hv, hu⟩ : validName n = true ∧ U (splitSlash n) := hn
+    have hc' : 1 ≤ c := hc
+    rw [step_downloadStream hU hinv root hv hu]
+    refine ⟨hinv, rfl, ?_⟩
+    show (match fs.abs n with | some d => Ret.bytes (sinkAfter sink c d) | none => Ret.error Err.notFound) = _
+    cases fs.abs n with
+    | none => rfl
+    | some d => simp only [sinkAfter_eq sink c hc' d]
 
 end Replicat.C13
